@@ -173,6 +173,9 @@ pub struct Cfg {
     /// light monitoring (slow interpreters): no event log, sweep only every `sweep_every` ops
     pub light: bool,
     pub sweep_every: usize,
+    /// the history may contain elided unadopts (recorded > stored): class ELIDE, or another class
+    /// run with --allow-stale (attribution stays with the class)
+    pub allow_stale: bool,
 }
 
 pub struct World {
@@ -226,7 +229,7 @@ impl Drop for World {
 }
 
 thread_local! {
-    static WORLD: RefCell<World> = RefCell::new(World::new(Cfg{class: Class::Wf, check_links: true, check_mem: true, log_cap: 4096, hard_exit: false, light: false, sweep_every: 1}));
+    static WORLD: RefCell<World> = RefCell::new(World::new(Cfg{class: Class::Wf, check_links: true, check_mem: true, log_cap: 4096, hard_exit: false, light: false, sweep_every: 1, allow_stale: false}));
 }
 
 pub fn with<R>(f: impl FnOnce(&mut World) -> R) -> R {
@@ -512,6 +515,13 @@ impl World {
         false
     }
 
+    /// In a history with stale records: is `t` inside a set that the documented algorithm is
+    /// about to collect because it trusts a stale record (the known C13 finding is then reported
+    /// at that object's destructor start; Weak observations on it before that are not judged)?
+    pub fn predicted_by_stale(&self, t: ObjId) -> bool {
+        self.cfg.allow_stale && self.drop_stack.iter().any(|c| c.elide_pred.as_ref().map_or(false, |p| p.contains(&t)))
+    }
+
     pub fn wf_holds(&self) -> bool {
         for (oi, o) in self.objs.iter().enumerate() {
             if !matches!(o.state, St::Alive) {
@@ -592,7 +602,7 @@ impl World {
     pub fn drop_begin(&mut self, t: ObjId) {
         self.stats.drops_strong += 1;
         let mut ctx = DropCtx { target: t, required: vec![], sync_armed: true, c14: None, elide_pred: None };
-        if self.cfg.class != Class::Elide && !self.wf_holds() {
+        if !self.cfg.allow_stale && !self.wf_holds() {
             self.harness_error("generator error: a handle is dropped while more adoptions are recorded than handles are stored".into());
         }
         if self.objs[t as usize].state == St::Alive {
@@ -608,7 +618,7 @@ impl World {
                     req = s;
                 }
             }
-            if self.cfg.class == Class::Elide {
+            if self.cfg.allow_stale {
                 if let Some(pred) = self.documented_algorithm(t) {
                     if self.stale_touching(&pred) {
                         ctx.elide_pred = Some(pred);
@@ -770,7 +780,7 @@ impl World {
                 let reach = self.reachable();
                 let mut sig = None;
                 let mut dangling: Option<usize> = None;
-                if self.cfg.class == Class::Elide {
+                if self.cfg.allow_stale {
                     // the set the documented algorithm collects when it trusts a stale record
                     let pred: Option<Vec<ObjId>> = self
                         .drop_stack
